@@ -34,6 +34,19 @@ def run(c):
                 c.broken.append({"kind": "harness-run", "what": n})
             c.cases("fbring", out, "From Ergo Require Import Common.Base Mbox.Fallback Mbox.FallbackCases.\nLocal Open Scope Z_scope.",
                     "frcase", corr=["corr_fb"], spec=["spec_fb"], premise=["premise_fb"])
+    # messages and requests that reach their handler through an act.Pool (process.Forward hands the SAME mailbox message
+    # from worker to worker when a bounded worker mailbox is full): each accepted one is handled exactly once, by one
+    # worker, with the original sender
+    is_pool_replay = False
+    if c.replay:
+        import json
+        is_pool_replay = json.load(open(c.replay)).get("engine", "").startswith("pool-forward")
+    if not c.replay or is_pool_replay:
+        args = ["run", "-replay", c.replay] if is_pool_replay else ["run", "-n", "100" if c.tier == "quick" else "1500", "-par", "96"]
+        out = c.harness("pool", args, timeout=400 if c.tier == "quick" else 1500)
+        if out:
+            c.cases("pool-forward", out, "From Ergo Require Import Common.Base Pool.Model Pool.Cases.\nLocal Open Scope Z_scope.\n",
+                    "pcase", corr=[], spec=["spec_one_worker", "spec_sender_kept"], premise=["premise_ok"])
     c.assumptions.append("fallback routing: the mailbox states are frozen during one send (receivers blocked by the harness); "
                          "concurrent draining while a chain is being walked is outside the model")
     c.assumptions.append("time.Timer.Stop returns true iff it prevented the function from running (Go runtime contract; hypothesis of C02_delayed)")
